@@ -62,12 +62,14 @@ package sbom
 //@   assigns \nothing
 //@   owns
 //@   ensures result != nil
+//@   ensures [C12:copy:nodelist] len(result.Nodes) == len(nl.Nodes) && len(result.Edges) == len(nl.Edges) && len(result.RootElements) == len(nl.RootElements) && (forall j int :: 0 <= j && j < len(nl.RootElements) ==> result.RootElements[j] == nl.RootElements[j]) && (forall i int :: 0 <= i && i < len(nl.Nodes) ==> result.Nodes[i] != nil && result.Nodes[i].Id == nl.Nodes[i].Id) && (forall k int :: 0 <= k && k < len(nl.Edges) ==> result.Edges[k] != nil && result.Edges[k].From == nl.Edges[k].From && result.Edges[k].Type == nl.Edges[k].Type)
 
 //@ func copyEdgeList
 //@   props C11, C12, C08, C09, C10
 //@   inline
 //@   assigns \nothing
 //@   owns
+//@   invariant L0: [C12:inv] len(edgeCopy) == _i && (forall k int :: 0 <= k && k < _i ==> edgeCopy[k] != nil && fresh(edgeCopy[k]) && edgeCopy[k].From == original[k].From && edgeCopy[k].Type == original[k].Type)
 //@   invariant L0: [C08:idx] forall e *Edge :: (e in elems(edgeCopy)) ==> e != nil && fresh(e) && allocated(e) && allocated(arr(e.To)) && (arr(e.To) == nil || fresh(arr(e.To)))
 
 //@ func copyNodeSlice
@@ -75,6 +77,7 @@ package sbom
 //@   inline
 //@   assigns \nothing
 //@   owns
+//@   invariant L0: [C12:inv] len(nodeCopy) == _i && (forall i int :: 0 <= i && i < _i ==> nodeCopy[i] != nil && fresh(nodeCopy[i]) && nodeCopy[i].Id == original[i].Id)
 
 //@ func NodeList.Union
 //@   props C11, C12, C08, C09
